@@ -102,10 +102,71 @@ def gen_names(rng, serials):
     return out
 
 
+def model_correspondence(ctx, RB, rng, boards, where, names):
+    """BootHandler.resolve_path (up to the choice of image / partition) vs the extracted model"""
+    import types, ipaddress
+    from nobodd.server import BootHandler
+    if RB is None:
+        return
+    # int(s, 16)
+    samples = ['1234abcd', 'ABC', ' abc', 'abc ', '0xabc', '0XABC', '+abc', '-abc', 'a_b', 'a__b', '_ab', 'ab_', '0x_ab', '0x', '', ' ',
+               'g', '12 34', '1e5', '0b11', '0o7', '00ff', '١٢', 'abc\t', '\nabc', 'é', '0xg', '+', '-', '+-1', 'x10', '0x+1', '٣']
+    samples += [''.join(rng.choice('0123456789abcdefABCDEFxX_+- g') for _ in range(rng.randint(0, 7))) for _ in range(400)]
+    for t in samples:
+        if any(ord(c) > 127 for c in t):
+            continue
+        try:
+            want = [int(t, 16)]
+        except ValueError:
+            want = []
+        got = RB.call('int16', t)
+        ctx.case(('int16', t), True, 'int16')
+        if got != want:
+            ctx.violation('model/int16', f'model int({t!r}, 16) = {got}, CPython {want}', dict(api='int16', s=t))
+            return
+    order = list(boards)
+    mboards = []
+    for sn in order:
+        b = boards[sn]
+        mboards.append((lib.Zint(sn), {'A': 1, 'B': 2}[where[sn][0]], b.partition, [b.ip.packed] if b.ip is not None else []))
+    for name in names:
+        if any(ord(c) > 127 or ord(c) < 0x20 for c in name):
+            continue
+        for addr in ADDRS[:6]:
+            h = BootHandler.__new__(BootHandler)
+            class FakeImages(dict):
+                def __getitem__(s, k):
+                    return (None, types.SimpleNamespace(root=Path('/VOLUME')))
+            h.server = types.SimpleNamespace(boards=boards, images=FakeImages())
+            h.client_address = (addr, 1069)
+            try:
+                r = h.resolve_path(name)
+                got = [0] + list({v: k for k, v in where.items()}.get(None, ())) if False else [0]
+                parts = Path(name).parts
+                sn = int(parts[0], 16)
+                got = [0, {'A': 1, 'B': 2}[where[sn][0]], boards[sn].partition]
+            except FileNotFoundError:
+                got = [1]
+            except PermissionError:
+                got = [2]
+            except Exception as e:
+                got = [type(e).__name__]
+            ca = ipaddress.ip_address(addr)
+            if getattr(ca, 'ipv4_mapped', None):
+                ca = ca.ipv4_mapped
+            m = RB.call('resolve', (mboards, [ca.packed], list(Path(name).parts)))
+            ctx.case(('resolve', name, addr), True, 'resolve-model')
+            if m[:3] != got[:3] if got[0] == 0 else m[:1] != got[:1]:
+                ctx.violation('boot.resolve/model-mismatch', f'resolve_path({name!r}) from {addr}: implementation {got}, model {m[:3]}',
+                              dict(name=name, client=addr, impl=got, model=m[:3]))
+                return
+
+
 def run(ctx, build):
     from nobodd.server import BootHandler
     from nobodd.config import Board
     R = ctx.runner('Fat')
+    RB = ctx.try_runner('Boot')
     rng = ctx.rng
     tables = 3 if ctx.thorough else 1
     if ctx.widen:
@@ -141,6 +202,7 @@ def run(ctx, build):
             names = gen_names(rng, list(boards))
             if not ctx.thorough:
                 names = names[:1200]
+            model_correspondence(ctx, RB, rng, boards, where, names[:300] if not ctx.thorough else names)
             try:
                 for i, name in enumerate(names):
                     addr = rng.choice(ADDRS)
